@@ -28,6 +28,7 @@ theorem releaseItems_now : ∀ (n : Nat) (w : World) (c : ConnSt), (releaseItems
         · exact ih _ _
         · exact ih _ _
         · exact ih _ _
+        · exact ih _ _
         · rfl
         · rfl
 
@@ -43,6 +44,7 @@ theorem releaseItems_gap : ∀ (n : Nat) (w : World) (c : ConnSt), (releaseItems
     · split
       · rfl
       · split
+        · exact ih _ _
         · exact ih _ _
         · exact ih _ _
         · exact ih _ _
@@ -374,6 +376,7 @@ theorem releaseItems_conn : ∀ (n : Nat) (w : World) (c : ConnSt),
         · exact ⟨(ih _ _).1, (ih _ _).2.trans (put_id _ _)⟩
         · exact ⟨(ih _ _).1, (ih _ _).2.trans (put_id _ _)⟩
         · exact ⟨(ih _ _).1, (ih _ _).2.trans (put_id _ _)⟩
+        · exact ⟨(ih _ _).1, (ih _ _).2.trans (put_id _ _)⟩
         · exact ⟨rfl, rfl⟩
         · exact ⟨rfl, rfl⟩
 
@@ -412,6 +415,7 @@ theorem releaseItems_nlogs : ∀ (n : Nat) (w : World) (c : ConnSt), (releaseIte
     · split
       · rfl
       · split
+        · exact ih _ _
         · exact ih _ _
         · exact ih _ _
         · exact ih _ _
@@ -457,6 +461,7 @@ theorem releaseItems_others : ∀ (n : Nat) (w : World) (c : ConnSt) (j : Nat), 
     · split
       · rfl
       · split
+        · exact ih _ _ j (by rw [put_id]; exact hj)
         · exact ih _ _ j (by rw [put_id]; exact hj)
         · exact ih _ _ j (by rw [put_id]; exact hj)
         · exact ih _ _ j (by rw [put_id]; exact hj)
